@@ -98,6 +98,8 @@ CONFIGS = [
     ('*', '', 0),
     ('*.txt|a', 'd/e', WM.RECURSIVE | WM.DIRPATHNAME),
     ('**/a', '', WM.RECURSIVE | WM.FILEPATHNAME | WM.GLOBSTAR | WM.HIDDEN),
+    # a file pattern whose every expansion is empty: a matcher that holds no pattern still routes every file to on_skip
+    ('{,}', '', WM.RECURSIVE | WM.BRACE),
 ]
 TREES = [T.CATALOGUE[0], T.CATALOGUE[1], T.CATALOGUE[2], T.CATALOGUE[6], T.CATALOGUE[7]]
 
